@@ -220,6 +220,51 @@ def compile_many(jobs):
     return pool().map(_compile_job, jobs, chunksize=max(1, len(jobs) // (NPROC * 4)))
 
 
+RULE_RE = re.compile(r'\.c(\d+)\{[a-z-]+:([^}]*?);?\}')
+
+
+def compile_cases(cases, render, opts=None, chunk=1500):
+    """Batch many one-rule cases `.c<i>{prop:VALUE}` into few stylesheets.
+    render(i, case) -> LESS text that yields exactly one rule named .c<i> with one declaration.
+    Returns (dict i -> value text, list of (i, error result)).  A failing batch is re-run case by case."""
+    opts = opts or dict(minify=True)
+    jobs, spans = [], []
+    for s in range(0, len(cases), chunk):
+        part = cases[s:s + chunk]
+        jobs.append(('\n'.join(render(s + j, c) for j, c in enumerate(part)), opts))
+        spans.append((s, len(part)))
+    res = compile_many(jobs)
+    out, errs = {}, []
+    for (s, n), r in zip(spans, res):
+        if r[0] == 'ok':
+            for m in RULE_RE.finditer(r[1]):
+                out[int(m.group(1))] = m.group(2).strip()
+        else:
+            single = compile_many([(render(s + j, cases[s + j]), opts) for j in range(n)])
+            for j, rr in enumerate(single):
+                if rr[0] == 'ok':
+                    m = RULE_RE.search(rr[1])
+                    if m:
+                        out[s + j] = m.group(2).strip()
+                else:
+                    errs.append((s + j, rr))
+    return out, errs
+
+
+def tie_verdict(chk, build, missing, disagreements, what, searched):
+    """Common ending: a broken proof obligation / driver / correspondence with no failing input found."""
+    if chk.violations:
+        return
+    if (not build.ok) or missing:
+        chk.violation({'kind': 'proof-obligation', 'broken': missing or build.failed_modules,
+                       'audit': build.audit_problems, 'log_tail': build.log[-2500:], 'search': searched},
+                      'no-failing-input-found')
+    elif disagreements:
+        chk.violation({'kind': 'correspondence', 'broken': what, 'disagreements': disagreements[:10],
+                       'note': 'model and implementation differ but the property oracle accepts the implementation',
+                       'search': searched}, 'no-failing-input-found')
+
+
 def close_pool():
     global _POOL
     if _POOL is not None:
